@@ -74,8 +74,16 @@ def core_py(e, elem=False):
     t = type(e).__name__
     c = lambda x: core_py(x) and not isinstance(x, ast.Starred)
     el = lambda x: core_py(x, True)
-    if t in ("Name", "Constant"):
+    if t == "Name":
         return True
+    if t == "Constant":
+        # a literal that is one token: no negative numbers, no complex number with a real part (Parse.lit_ok)
+        v = e.value
+        if isinstance(v, bool) or not isinstance(v, (int, float, complex)):
+            return True
+        if isinstance(v, complex):
+            return v.real == 0 and not repr(v).startswith(("-", "("))
+        return not repr(v).startswith("-")
     if t == "Starred":
         return elem and c(e.value)
     if t == "BinOp":
